@@ -10,8 +10,8 @@ Ltac Zify.zify_post_hook ::= Z.div_mod_to_equations.
 Definition ptOf (P : Z) (a : asIn) : Z := u64 (u64 P * u64 (tsOf a)).
 
 (** Any pair of properties closed under "take the other candidate" survives the widening. *)
-Lemma widenRange_inv (Q0 Q1 : Z -> Prop) P : forall ases k0 k1 ka kb,
-  widenRange P ases k0 k1 = Ok (ka, kb) -> Q0 k0 -> Q1 k1 ->
+Lemma widenRange_inv (Q0 Q1 : Z -> Prop) P kmin kmax : forall ases k0 k1 ka kb,
+  widenRange P ases kmin kmax k0 k1 = Ok (ka, kb) -> Q0 k0 -> Q1 k1 ->
   (forall a ss f l, In a ases -> a_tl a = Some ss -> firstLast ss = Some (f, l) ->
      Q0 (i64 (f / ptOf P a)) /\ Q1 (i64 (l / ptOf P a))) ->
   Q0 ka /\ Q1 kb.
@@ -26,33 +26,34 @@ Proof.
     fold (ptOf P a) in H. destruct (ptOf P a =? 0); [discriminate|].
     destruct (HA a ss f l ltac:(now left) Etl Efl) as [Hf Hl].
     eapply IH; [exact H| | |exact HA'].
-    + destruct (_ <? k0); assumption.
-    + destruct (_ >? k1); assumption.
+    + match goal with |- Q0 (if ?c then _ else _) => destruct c end; assumption.
+    + match goal with |- Q1 (if ?c then _ else _) => destruct c end; assumption.
 Qed.
 
-(** the range only grows, and reaches the period of every first and last listed segment *)
-
-Lemma widenRange_covers P : forall ases k0 k1 ka kb,
-  widenRange P ases k0 k1 = Ok (ka, kb) ->
-  ka <= k0 /\ k1 <= kb /\
+(** the range only grows, stays within [kmin, kmax] as far as it grows, and reaches the period of
+    every first and last listed segment that lies within these bounds *)
+Lemma widenRange_covers P kmin kmax : forall ases k0 k1 ka kb,
+  widenRange P ases kmin kmax k0 k1 = Ok (ka, kb) ->
+  ka <= k0 /\ k1 <= kb /\ (kmin <= k0 -> kmin <= ka) /\ (k1 <= kmax -> kb <= kmax) /\
   (forall a ss f l, In a ases -> a_tl a = Some ss -> firstLast ss = Some (f, l) ->
-     ka <= i64 (f / ptOf P a) /\ i64 (l / ptOf P a) <= kb).
+     (kmin <= i64 (f / ptOf P a) -> ka <= i64 (f / ptOf P a)) /\
+     (i64 (l / ptOf P a) <= kmax -> i64 (l / ptOf P a) <= kb)).
 Proof.
   induction ases as [|a rest IH]; intros k0 k1 ka kb H; cbn [widenRange] in H.
-  - inversion H; subst. split; [lia|split; [lia|]]. intros ? ? ? ? [].
+  - inversion H; subst. repeat (split; [lia|]). intros ? ? ? ? [].
   - destruct (a_tl a) as [ss|] eqn:Etl.
-    2:{ destruct (IH _ _ _ _ H) as (A & B & C). split; [assumption|split; [assumption|]].
+    2:{ destruct (IH _ _ _ _ H) as (A & B & C & D & E). repeat (split; [assumption|]).
         intros a0 ss f l [<-|Hin] E1 E2; [congruence|eauto]. }
     destruct (firstLast ss) as [[f l]|] eqn:Efl.
-    2:{ destruct (IH _ _ _ _ H) as (A & B & C). split; [assumption|split; [assumption|]].
+    2:{ destruct (IH _ _ _ _ H) as (A & B & C & D & E). repeat (split; [assumption|]).
         intros a0 ss0 f l [<-|Hin] E1 E2; [congruence|eauto]. }
     fold (ptOf P a) in H. destruct (ptOf P a =? 0); [discriminate|].
-    destruct (IH _ _ _ _ H) as (A & B & C).
-    assert (HA : ka <= k0 /\ ka <= i64 (f / ptOf P a)) by (destruct (_ <? k0) eqn:E in A; lia).
-    assert (HB : k1 <= kb /\ i64 (l / ptOf P a) <= kb) by (destruct (_ >? k1) eqn:E in B; lia).
-    split; [lia|]. split; [lia|].
-    intros a0 ss0 f0 l0 [<-|Hin] E1 E2; [|eauto].
-    rewrite Etl in E1. inversion E1; subst ss0. rewrite Efl in E2. inversion E2; subst. lia.
+    destruct (IH _ _ _ _ H) as (A & B & C & D & E).
+    set (pf := i64 (f / ptOf P a)) in *. set (pl := i64 (l / ptOf P a)) in *.
+    destruct ((pf <? k0) && (pf >=? kmin)) eqn:E0; destruct ((pl >? k1) && (pl <=? kmax)) eqn:E1.
+    all: (split; [lia|]); (split; [lia|]); (split; [intros; apply C; lia|]); (split; [intros; apply D; lia|]).
+    all: intros a0 ss0 f0 l0 [<-|Hin] X1 X2; [|eauto].
+    all: rewrite Etl in X1; inversion X1; subst ss0; rewrite Efl in X2; inversion X2; subst f0 l0; fold pf pl; split; intros; lia.
 Qed.
 
 (** * firstAndLastSegmentStart on an expanded timeline *)
@@ -151,9 +152,9 @@ Definition tlBound (P HI : Z) (a : asIn) : Prop :=
   forall ss f l, a_tl a = Some ss -> firstLast ss = Some (f, l) ->
     0 < tsOf a < two32 /\ 0 <= f < two63 /\ 0 <= l < two63 /\ (l / (P * tsOf a) + 1) * P <= HI.
 
-Theorem splitPeriod_partition_full pph seg mode cont ast snr st now ases ps j a s0 rest t0 HI :
+Theorem splitPeriod_partition_full atoMS pph seg mode cont ast snr st now ases ps j a s0 rest t0 HI :
   1 <= pph <= 3600 -> 0 < seg -> ast <= st <= now -> mode <> MNumber ->
-  splitPeriod false true pph seg mode cont ast snr st now ases = Ok ps ->
+  splitPeriod false (Some atoMS) pph seg mode cont ast snr st now ases = Ok ps ->
   nth_error ases j = Some a -> a_image a = false -> a_tl a = Some (s0 :: rest) -> p_t s0 = Some t0 ->
   Forall (fun s => 0 <= p_r s < two32) (s0 :: rest) ->
   let es := s0 :: rest in
@@ -162,6 +163,11 @@ Theorem splitPeriod_partition_full pph seg mode cont ast snr st now ases ps j a 
   let ts := tsOf a in
   goodTL es (snrFor mode a) ts HI -> (k1 + 1) * P <= HI ->
   Forall (tlBound P HI) ases ->
+  (* the listed segments lie within the bounds of the widening: the first one begins less than one
+     period before the period of the window start, the last one not after the period of now + ato *)
+  (forall f l, firstLast es = Some (f, l) ->
+     (st - ast) / (P * 1000) - 1 <= f / (P * ts) /\
+     l / (P * ts) <= kmaxOf (Some atoMS) P ast now k1) ->
   flat_map (periodTimeline j) ps = expandP es /\
   Forall (fun p => periodTimeline j p = filter (inWin (pd_nr p * P * ts) ((pd_nr p + 1) * P * ts)) (expandP es) /\
                    periodPTO j p = Some (pd_start p * ts) /\
@@ -171,15 +177,16 @@ Theorem splitPeriod_partition_full pph seg mode cont ast snr st now ases ps j a 
                           then startNrOf (a_startNr a) + countBefore (pd_nr p * P * ts) (expandP es)
                           else startNrOf (a_startNr a)))) ps.
 Proof.
-  intros Hpph Hseg Hst Hmode H Hj Himg Htl Ht0 HR es P k1 ts G Hhi HB.
+  intros Hpph Hseg Hst Hmode H Hj Himg Htl Ht0 HR es P k1 ts G Hhi HB Hbnd.
   pose proof (periodDur_pos pph Hpph) as HP. fold P in HP.
-  destruct (splitPeriod_structure_gen true pph seg mode cont ast snr st now ases ps Hpph Hseg ltac:(lia) ltac:(lia) H)
+  destruct (splitPeriod_structure_gen (Some atoMS) pph seg mode cont ast snr st now ases ps Hpph Hseg ltac:(lia) ltac:(lia) H)
     as (_ & ka & kb & ER & F).
   fold P k1 in ER, F.
   set (k0 := (st - ast) / (P * 1000)) in *.
   assert (Hk0 : 0 <= k0) by (unfold k0; apply Z.div_pos; lia).
   assert (Hk01 : k0 <= k1) by (unfold k0, k1; apply Z.div_le_mono; lia).
-  assert (EW : widenRange P ases k0 k1 = Ok (ka, kb)).
+  set (kmax := kmaxOf (Some atoMS) P ast now k1) in *.
+  assert (EW : widenRange P ases (k0 - 1) kmax k0 k1 = Ok (ka, kb)).
   { unfold rangeOf in ER. destruct mode; [congruence|exact ER|exact ER]. }
   assert (Hm : templateType mode a <> MNumber) by (unfold templateType; rewrite Himg; exact Hmode).
   assert (Hin : In a ases) by (eapply nth_error_In; eauto).
@@ -199,8 +206,8 @@ Proof.
     unfold i64. unfold two63, two64 in *.
     repeat split; lia. }
   (* bounds on the widened range *)
-  destruct (widenRange_covers P ases k0 k1 ka kb EW) as (Hka & Hkb & Hcov).
-  destruct (widenRange_inv (fun k => 0 <= k) (fun k => (k + 1) * P <= HI) P ases k0 k1 ka kb EW Hk0 Hhi) as [Hka0 HkbHI].
+  destruct (widenRange_covers P (k0 - 1) kmax ases k0 k1 ka kb EW) as (Hka & Hkb & _ & _ & Hcov).
+  destruct (widenRange_inv (fun k => 0 <= k) (fun k => (k + 1) * P <= HI) P (k0 - 1) kmax ases k0 k1 ka kb EW Hk0 Hhi) as [Hka0 HkbHI].
   { intros a' ss f l Ha' E1 E2. destruct (Hpt a' ss f l Ha' E1 E2) as (_ & _ & -> & -> & ? & ?). split; assumption. }
   assert (G' : goodTL es (snrFor mode a) ts ((kb + 1) * P)).
   { destruct G. constructor; try assumption. nia. }
@@ -215,6 +222,7 @@ Proof.
   destruct (Hcov a es _ _ Hin Htl Efl) as [Ca Cb].
   destruct (Hpt a es _ _ Hin Htl Efl) as (_ & Hpos & E1 & E2 & _ & _).
   rewrite E1 in Ca. rewrite E2 in Cb. fold ts in Ca, Cb, Hpos.
+  destruct (Hbnd _ _ Efl) as [B1 B2]. fold k0 in B1. specialize (Ca B1). specialize (Cb B2).
   fold es in Exs. rewrite Exs in Hx, Hs.
   assert (Hlo : fst x0 <= fst x) by (destruct Hx as [<-|Hx]; [lia|]; destruct x0; apply (sortedT_ge _ _ _ Hs x Hx)).
   assert (Hup : fst x <= fst (last (x0 :: xs) (0, 0))) by (apply sortedT_le_last; assumption).
@@ -238,7 +246,7 @@ Qed.
 (** ato_3, 2 s segments, periods_60, now = 59 s: with the repair period 1 exists and holds the
     segment that starts at 60 s. *)
 Lemma late_segment_after_fix :
-  splitPeriod false true 60 2000 MTimelineTime false 0 0 0 59000
+  splitPeriod false (Some 3000) 60 2000 MTimelineTime false 0 0 0 59000
     [ {| a_image := false; a_ts := Some 90000; a_dur := None; a_startNr := None; a_tl := Some atoTL |} ] =
   Ok [ {| pd_nr := 0; pd_start := 0;
           pd_as := [ {| o_pto := 0; o_startNr := None; o_tl := Some [ {| p_t := Some 0; p_d := 180000; p_r := 29 |} ]; o_cont := false |} ] |};
@@ -252,11 +260,11 @@ Proof. vm_compute. reflexivity. Qed.
 Definition earlyTL : list pS := [ {| p_t := Some 10260000; p_d := 540000; p_r := 0 |} ].
 Definition earlyAS : asIn := {| a_image := false; a_ts := Some 90000; a_dur := None; a_startNr := None; a_tl := Some earlyTL |}.
 Lemma early_segment_before_fix :
-  splitPeriod false false 30 6000 MTimelineTime false 0 0 120000 121000 [earlyAS] =
+  splitPeriod false None 30 6000 MTimelineTime false 0 0 120000 121000 [earlyAS] =
   Ok [ {| pd_nr := 1; pd_start := 120; pd_as := [ {| o_pto := 10800000; o_startNr := None; o_tl := Some []; o_cont := false |} ] |} ].
 Proof. vm_compute. reflexivity. Qed.
 Lemma early_segment_after_fix :
-  splitPeriod false true 30 6000 MTimelineTime false 0 0 120000 121000 [earlyAS] =
+  splitPeriod false (Some 0) 30 6000 MTimelineTime false 0 0 120000 121000 [earlyAS] =
   Ok [ {| pd_nr := 0; pd_start := 0;
           pd_as := [ {| o_pto := 0; o_startNr := None; o_tl := Some [ {| p_t := Some 10260000; p_d := 540000; p_r := 0 |} ]; o_cont := false |} ] |};
        {| pd_nr := 1; pd_start := 120; pd_as := [ {| o_pto := 10800000; o_startNr := None; o_tl := Some []; o_cont := false |} ] |} ].
